@@ -734,9 +734,15 @@ pub async fn handle_changes(
             let mut dropped_count = 0;
             if let Some((dropped_change, _, _)) = queue.pop_front() {
                 for v in dropped_change.versions() {
-                    if let Entry::Occupied(mut entry) = seen.entry((change.actor_id, v)) {
+                    // forget what the *dropped* change recorded (its own actor),
+                    // so that it is accepted when it is offered again
+                    if let Entry::Occupied(mut entry) = seen.entry((dropped_change.actor_id, v)) {
                         if let Some(seqs) = dropped_change.seqs().cloned() {
                             entry.get_mut().remove(seqs);
+                            // an entry without seqs would still suppress empty changesets
+                            if entry.get().is_empty() {
+                                entry.swap_remove_entry();
+                            }
                         } else {
                             entry.swap_remove_entry();
                         }
